@@ -8,6 +8,7 @@ Definition lits_of (T : tables) : list (N * string) := indexed_from 0 (literal_t
 Lemma sw_loop_S fuel v complete tabs e T acc word state ci log :
   sw_loop (S fuel) v complete tabs e T acc word state ci log =
   if Nat.leb (String.length word) ci then Ok (quirky v || complete || memN state acc, state, ci, log)
+  else if star_first v complete T state then Ok (true, state, ci, log)
   else
     let sub := sdrop ci word in
     do s1 <- match assocN state (t_mlit T) with
@@ -85,11 +86,12 @@ Theorem fixed_value_recognised :
     sdrop ci word = v -> (ci < String.length word)%nat ->
     first_enabled (lits_of T) st v = Some to ->
     quirky var || memN to acc = true ->
+    star_first var false T s = false ->
     sw_loop (S (S fuel)) var false tabs e T acc word s ci log = Ok (true, to, String.length word, log).
 Proof.
-  intros var fuel tabs e T acc word s st ci v to log Hvar Hdom Hs Hst Hv Hci Hf Hacc.
+  intros var fuel tabs e T acc word s st ci v to log Hvar Hdom Hs Hst Hv Hci Hf Hacc Hsf.
   rewrite sw_loop_S.
-  assert (Nat.leb (String.length word) ci = false) as -> by (apply Nat.leb_gt; exact Hci).
+  assert (Nat.leb (String.length word) ci = false) as -> by (apply Nat.leb_gt; exact Hci). rewrite Hsf.
   pose proof (strdom_sdrop var _ word ci Hdom) as Hd. rewrite Hv in Hd.
   cbv zeta. rewrite Hst, Hv.
   fold (lits_of T).
@@ -113,7 +115,7 @@ Theorem pinned_value_recognised_outside_known :
 Proof.
   intros fuel tabs e T acc word s st ci v to log Hpl Hpw Hs Hst Hv Hci Hf Hk.
   rewrite sw_loop_S.
-  assert (Nat.leb (String.length word) ci = false) as -> by (apply Nat.leb_gt; exact Hci).
+  assert (Nat.leb (String.length word) ci = false) as -> by (apply Nat.leb_gt; exact Hci). cbn [star_first quirky negb andb].
   cbv zeta. rewrite Hst, Hv. unfold lit_loop.
   assert (Hpv : plain v = true) by (rewrite <- Hv; now apply plain_sdrop).
   fold (lits_of T).
@@ -135,7 +137,7 @@ Theorem pinned_value_refused :
 Proof.
   intros fuel tabs e T acc word s st ci v log Hpl Hpw Hs Hst Hv Hci Hex.
   rewrite sw_loop_S.
-  assert (Nat.leb (String.length word) ci = false) as -> by (apply Nat.leb_gt; exact Hci).
+  assert (Nat.leb (String.length word) ci = false) as -> by (apply Nat.leb_gt; exact Hci). cbn [star_first quirky negb andb].
   cbv zeta. rewrite Hst, Hv. unfold lit_loop.
   assert (Hpv : plain v = true) by (rewrite <- Hv; now apply plain_sdrop).
   fold (lits_of T).
@@ -155,6 +157,7 @@ Proof.
   intros var fuel tabs e T acc word s st ci log Hvar Hdom Hs Hst Hex.
   rewrite sw_loop_S.
   destruct (Nat.leb (String.length word) ci); [eexists; reflexivity|].
+  replace (star_first var true T s) with false by (unfold star_first; cbn [negb]; now rewrite andb_false_r).
   cbv zeta. rewrite Hst. fold (lits_of T).
   rewrite (lit_loop_nonpinned var true st _ (lits_of T) Hvar (strdom_sdrop var _ word ci Hdom)). cbn [obind].
   rewrite (fixed_stops_at_partial st _ (lits_of T) Hs Hex).
@@ -195,12 +198,13 @@ Theorem fixed_piece_consumed :
     In (lid, lit) (lits_of T) -> assocN lid st = Some to ->
     String.prefix lit (sdrop ci word) = true ->
     (ci < String.length word)%nat ->
+    star_first var complete T s = false ->
     sw_loop (S fuel) var complete tabs e T acc word s ci log
     = sw_loop fuel var complete tabs e T acc word to (ci + String.length lit) log.
 Proof.
-  intros var fuel complete tabs e T acc word s st ci lid lit to log Hvar Hdom Hst Hu Hin Ha Hp Hl.
+  intros var fuel complete tabs e T acc word s st ci lid lit to log Hvar Hdom Hst Hu Hin Ha Hp Hl Hsf.
   rewrite sw_loop_S.
-  assert (Nat.leb (String.length word) ci = false) as -> by (apply Nat.leb_gt; lia).
+  assert (Nat.leb (String.length word) ci = false) as -> by (apply Nat.leb_gt; lia). rewrite Hsf.
   cbv zeta. rewrite Hst. fold (lits_of T).
   rewrite (lit_loop_nonpinned var complete st _ (lits_of T) Hvar (strdom_sdrop var _ word ci Hdom)).
   now rewrite (fixed_consumes_piece complete st _ (lits_of T) lid lit to Hu Hin Ha Hp).
